@@ -1,3 +1,4 @@
+import Fpdec.Kernels.Norm
 import Fpdec.Props.C04
 import Fpdec.Props.C03_Sites
 
@@ -200,5 +201,12 @@ example : div Profile.dev .heven ⟨1, 0⟩ ⟨3, 0⟩ = .ok ⟨3333333333333333
 example : div Profile.dev .heven ⟨10, 1⟩ ⟨4, 0⟩ = .ok ⟨25, 2⟩ := by decide                      -- trailing zeros removed
 example : div Profile.dev .heven ⟨1, 0⟩ ⟨0, 5⟩ = .panic .divzero ∧ checkedDiv Profile.dev .heven ⟨1, 0⟩ ⟨0, 5⟩ = .ok none := by
   decide
+
+/-! ### translated kernels
+The Lean definitions `Gen.K.*` are regenerated from the Rust source on every run by `tools/fpkernels.py` (expression-level
+translation).  These theorems tie them to the hand-written model the property theorems above are about: a change of the Rust
+kernel that changes its translation breaks them. -/
+theorem kernel_normalize (prof : Profile) (c : Int) (n : Nat) (hn : n < 256) :
+    Gen.K.normalize prof c n = .ok (normalize c n) := Kernels.normalize_eq prof c n hn
 
 end Fpdec.Props.C03
